@@ -1,5 +1,5 @@
 import GateryModel.C05.ModelX
-import GateryModel.C05.LemmasEval
+import GateryModel.C05.LemmasData
 /-!
 # C05 helper lemmas X — the padding the frontend inserts for width-less variables preserves the integer
 
@@ -154,5 +154,125 @@ theorem assignInt_conditional (X X' : XState) (x inn wi : Nat) (pi : Pol) (s : I
           cases c
           · simp only [Bool.false_eq_true, if_false]; rw [hvo]
           · simp only [if_true]; rw [hvn]
+
+/-! ### the enable-scope stack -/
+
+/-- every entry's accumulated condition (`m_fullEnableCondition`) evaluates to the conjunction of the own conditions
+    (`m_enableCondition`) of that entry and of all entries below it -/
+def EnInv (ρ : List Val) (ns : Nodes) : List EnS → Prop
+  | [] => True
+  | e :: rest =>
+      e.cond < ns.size ∧ e.full < ns.size ∧
+      truthy (valAt ρ ns e.full) = (e :: rest).all (fun x => truthy (valAt ρ ns x.cond)) ∧ EnInv ρ ns rest
+
+theorem EnInv.mono {ns ns' : Nodes} (e : Ext ns ns') : ∀ {ens : List EnS}, EnInv ρ ns ens → EnInv ρ ns' ens
+  | [], _ => trivial
+  | en :: rest, ⟨h1, h2, h3, h4⟩ => by
+      have ih := EnInv.mono e h4
+      refine ⟨e.lt h1, e.lt h2, ?_, ih⟩
+      rw [valAt_ext e h2, h3]
+      -- the own conditions of all entries are old nodes
+      have hc : ∀ {l : List EnS}, EnInv ρ ns l → l.all (fun x => truthy (valAt ρ ns' x.cond)) = l.all (fun x => truthy (valAt ρ ns x.cond)) := by
+        intro l
+        induction l with
+        | nil => intro _; rfl
+        | cons a l ihl =>
+          intro ⟨a1, _, _, a4⟩
+          simp only [List.all_cons, valAt_ext e a1, ihl a4]
+      exact (hc (l := en :: rest) ⟨h1, h2, h3, h4⟩).symm
+
+/-- constructing one more `EnableScope` keeps the invariant (one step of the induction over the scope stack) -/
+theorem pushEn_inv (ns : Nodes) (ens : List EnS) (cond : Nat) (h : EnInv ρ ns ens) (hc : cond < ns.size) :
+    Ext ns (pushEn ns ens cond).1 ∧ EnInv ρ (pushEn ns ens cond).1 (pushEn ns ens cond).2 := by
+  cases ens with
+  | nil =>
+    simp only [pushEn]
+    exact ⟨Ext.refl _, hc, hc, by simp, trivial⟩
+  | cons p rest =>
+    simp only [pushEn, mkNode]
+    obtain ⟨p1, p2, p3, p4⟩ := h
+    have e0 := Ext.push ns (.and cond p.full)
+    refine ⟨e0, e0.lt hc, by simp [Array.size_push], ?_, EnInv.mono e0 ⟨p1, p2, p3, p4⟩⟩
+    rw [val_and, truthy_single, p3]
+    simp only [List.all_cons, valAt_ext e0 hc, valAt_ext e0 p1]
+    congr 1
+    have hc' : ∀ {l : List EnS}, EnInv ρ ns l → l.all (fun x => truthy (valAt ρ (ns.push (.and cond p.full)) x.cond)) = l.all (fun x => truthy (valAt ρ ns x.cond)) := by
+      intro l
+      induction l with
+      | nil => intro _; rfl
+      | cons a l ihl =>
+        intro ⟨a1, _, _, a4⟩
+        simp only [List.all_cons, valAt_ext e0 a1, ihl a4]
+    rw [hc' p4]
+
+/-- `n` enable scopes constructed one inside the other (nodes may be created in between: `EnInv.mono`) -/
+def pushAll : Nodes → List EnS → List Nat → Nodes × List EnS
+  | ns, ens, [] => (ns, ens)
+  | ns, ens, c :: cs => pushAll (pushEn ns ens c).1 (pushEn ns ens c).2 cs
+
+theorem pushAll_inv : ∀ (cs : List Nat) (ns : Nodes) (ens : List EnS), EnInv ρ ns ens → (∀ c ∈ cs, c < ns.size) →
+    Ext ns (pushAll ns ens cs).1 ∧ EnInv ρ (pushAll ns ens cs).1 (pushAll ns ens cs).2 ∧
+    (pushAll ns ens cs).2.length = ens.length + cs.length
+  | [], ns, ens, h, _ => ⟨Ext.refl _, h, by simp [pushAll]⟩
+  | c :: cs, ns, ens, h, hv => by
+      obtain ⟨e1, i1⟩ := pushEn_inv (ρ := ρ) ns ens c h (hv c (by simp))
+      obtain ⟨e2, i2, l2⟩ := pushAll_inv cs _ _ i1 (fun c' hc' => e1.lt (hv c' (by simp [hc'])))
+      refine ⟨e1.trans e2, i2, ?_⟩
+      simp only [pushAll]
+      rw [l2]
+      cases ens <;> simp [pushEn] <;> omega
+
+theorem pushEn_conds (ns : Nodes) (ens : List EnS) (c : Nat) : (pushEn ns ens c).2.map (·.cond) = c :: ens.map (·.cond) := by
+  cases ens <;> simp [pushEn, mkNode]
+
+theorem pushAll_conds : ∀ (cs : List Nat) (ns : Nodes) (ens : List EnS),
+    (pushAll ns ens cs).2.map (·.cond) = cs.reverse ++ ens.map (·.cond)
+  | [], _, _ => by simp [pushAll]
+  | c :: cs, ns, ens => by
+      simp only [pushAll]
+      rw [pushAll_conds cs, pushEn_conds]
+      simp
+
+/-- **Effective enable = conjunction of all enclosing conditions, for any nesting depth.** `cs` = the conditions of `n ≥ 1` enable
+    scopes constructed one inside the other (outermost first; for a conditional scope the condition is its full condition); the
+    accumulated condition of the innermost one - what `reg()` / a memory write port created there gets - evaluates to `c₁ ∧ … ∧ cₙ`. -/
+theorem enable_is_conjunction (ns : Nodes) (cs : List Nat) (hv : ∀ c ∈ cs, c < ns.size) (hne : cs ≠ []) :
+    ∃ e rest, (pushAll ns [] cs).2 = e :: rest ∧
+      truthy (valAt ρ (pushAll ns [] cs).1 e.full) = cs.all (fun c => truthy (valAt ρ ns c)) := by
+  obtain ⟨e1, i1, l1⟩ := pushAll_inv (ρ := ρ) cs ns [] trivial hv
+  have hc := pushAll_conds cs ns []
+  cases hst : (pushAll ns [] cs).2 with
+  | nil =>
+    rw [hst] at l1
+    cases cs with
+    | nil => exact absurd rfl hne
+    | cons c cs => simp at l1
+  | cons e rest =>
+    refine ⟨e, rest, rfl, ?_⟩
+    rw [hst] at i1 hc
+    rw [i1.2.2.1]
+    -- the stack's own conditions are exactly `cs` (innermost first), all of them old nodes
+    have : (e :: rest).all (fun x => truthy (valAt ρ (pushAll ns [] cs).1 x.cond)) =
+        ((e :: rest).map (·.cond)).all (fun c => truthy (valAt ρ (pushAll ns [] cs).1 c)) := by
+      rw [List.all_map]; rfl
+    rw [this, hc]
+    simp only [List.map_nil, List.append_nil, List.all_reverse]
+    have hall : ∀ (l : List Nat), (∀ c ∈ l, c < ns.size) →
+        l.all (fun c => truthy (valAt ρ (pushAll ns [] cs).1 c)) = l.all (fun c => truthy (valAt ρ ns c)) := by
+      intro l
+      induction l with
+      | nil => intro _; rfl
+      | cons a l ih =>
+        intro hl
+        simp only [List.all_cons, valAt_ext e1 (hl a (by simp)), ih (fun c hc' => hl c (by simp [hc']))]
+    exact hall cs hv
+
+/-- what a register / memory write port created under a non-empty enable-scope stack gets as enable -/
+theorem curEnable_conjunction (X : XState) (e : EnS) (rest : List EnS) (hens : X.ens = e :: rest) (h : EnInv ρ X.core.nodes X.ens) :
+    (curEnable X).1 = X ∧
+    truthy (valAt ρ X.core.nodes (curEnable X).2) = X.ens.all (fun x => truthy (valAt ρ X.core.nodes x.cond)) := by
+  unfold curEnable
+  rw [hens] at h ⊢
+  exact ⟨rfl, h.2.2.1⟩
 
 end Gatery.C05
